@@ -171,11 +171,11 @@ def gen_state(rng, k, tier):
     s["clock"] = "%d.%d" % (sec, rng.choice([0, 499, 500, 999, 1000, 1499, 1500, 500000, 999499, 999500, 999999, rng.randrange(0, 10 ** 6)]))
     s["fmts"] = hexlist([gen_fmt(rng) for _ in range(4 if tier == "quick" else 8)] + [DEFAULT_FMT])
     s["login"] = rng.choice(["keep", "keep", "uid:%d" % rng.choice(UID_WITH), "uid:%d" % rng.choice(UID_WITHOUT)])
-    s["host"] = rng.choice(["keep", hexs(b"h"), hexs(b"verif-host"), hexs(b"a.b.example.org"), hexs(b"H" * 64), hexs(b"MiXed")])
+    s["host"] = rng.choice(["keep", hexs(b"h"), hexs(b"verif-host"), hexs(b"a.b.example.org"), hexs(b"H" * 64), hexs(b"h" * 63), hexs(b"MiXed")])
     sizes = [256] + rng.sample([4, 5, 7, 16, 33, 64, 255, 2048], 2)
     s["sizes"] = dec_list(sizes)
     file = rng.choice([b"/bin/ls", b"/usr/bin/a program", b"", b"/" + b"p" * 300])
-    argv = rng.choice([None, [], [b"ls"], [b"ls", b"-l", b"a b"], [b"x" * 200, b"", b"y"]])
+    argv = rng.choice([None, [], [b"ls"], [b"ls", b"-l", b"a b"], [b"x" * 200, b"", b"y"], [b""], [b"", b""]])
     s["exec"] = hexs(file) + "|" + hexlist(argv)
     s["lits"] = hexlist([b"", b"lit", b"%s%n" + b"z" * 300])
     if rng.random() < 0.6:
@@ -213,6 +213,8 @@ def fixed_states():
         st(clock="1790000000.%d" % us, only="timestamp,timestamp_ms,timestamp_us", sizes=dec_list([256]))
     st(cwd="symlink", env=hexlist([b"A=1"]), uids="1001,1002,1003", only="cwd,env,env_all")
     st(cwd="symlink", only="cwd")
+    st(exec=hexs(b"/bin/prog") + "|" + hexlist([b""]), only="cmdline,filename")            # one empty argument: the command line is empty, not the path
+    st(exec=hexs(b"/bin/prog") + "|" + hexlist([b"", b""]), only="cmdline,filename")
     st(uids="1,1,1", stdin="pty:2", race="20000", only="username,tty_username,uid,tty_uid", sizes=dec_list([256]))
     return out
 
